@@ -115,7 +115,7 @@ class Taint:
                 out = [("key material", t)]
         elif tag == "attr" and t[1][0] == "param" and t[1][1] in self.key:
             out = [("key material", t)]
-        elif tag in ("const", "cfg", "counter", "rangevar", "ref", "global", "rec", "unk", "free", "fstr", "lparam"):
+        elif tag in ("const", "cfg", "counter", "rangevar", "ref", "global", "rec", "unk", "free", "lparam"):
             out = []
         elif tag == "call" and t[1] in SIZE_CALLS:
             out = []
